@@ -1,6 +1,219 @@
 package main
 
-import "verifharness/internal/ev"
+import (
+	"context"
+	"encoding/binary"
+	"fmt"
+	"sync"
+	"sync/atomic"
+	"time"
 
-// runC02Channel is the channel-level part of C02 (filled in with the channel harness).
-func runC02Channel(r *ev.Run) {}
+	"go.brendoncarroll.net/p2p/verifhook"
+
+	"verifharness/internal/ev"
+	"verifharness/internal/rng"
+)
+
+// runC02Channel is the channel-level part of C02: two real Channels rotating sessions every few hundred ms, many
+// concurrent senders, and an adversary that re-injects / mutates everything either side ever emitted.
+func runC02Channel(r *ev.Run) {
+	n := pick(r, 2, 12)
+	g := rng.New(r.Seed, "C02chan", fmt.Sprint(r.Batch))
+	for i := 0; i < n; i++ {
+		caseID := fmt.Sprintf("chan-%d-%d", r.Batch, i)
+		cg := g.Fork()
+		if !r.Want(caseID) {
+			continue
+		}
+		c02ChannelCase(r, cg, caseID)
+	}
+}
+
+func c02ChannelCase(r *ev.Run, g *rng.R, caseID string) {
+	b := 5 * time.Millisecond
+	dur := 2200 * time.Millisecond
+	if raceEnabled {
+		b = 20 * time.Millisecond
+		dur = 5 * time.Second
+	}
+	tm := timingsFor(b, g.Bool())
+	verifhook.Drain()
+	nw := newCnet(cendCfg{key: keyN(41), timings: tm}, cendCfg{key: keyN(42), timings: tm}, nil)
+	nw.goPrompt()
+	var emu sync.Mutex
+	emitted := map[uint64]map[uint64]int{}
+	recent := [][]byte{}
+	var onWire atomic.Value
+	nw.onEmit = func(m *cmsg) {
+		// (c) no plaintext on the wire
+		emu.Lock()
+		for _, pt := range recent {
+			if len(pt) >= 16 && containsSub(m.Bytes, pt) {
+				onWire.CompareAndSwap(nil, fmt.Sprintf("message #%d from %s contains a plaintext", m.Idx, "AB"[m.From:m.From+1]))
+			}
+		}
+		emu.Unlock()
+	}
+	ctx, cancel := context.WithCancel(context.Background())
+	var sentMu sync.Mutex
+	sent := [2]map[string]bool{{}, {}}
+	var nSent atomic.Int64
+	var wg sync.WaitGroup
+	start := time.Now()
+	const senders = 8
+	for side := 0; side < 2; side++ {
+		for s := 0; s < senders; s++ {
+			side, s := side, s
+			lg := g.Fork()
+			wg.Add(1)
+			go func() {
+				defer wg.Done()
+				for i := 0; time.Since(start) < dur; i++ {
+					pt := make([]byte, 24+lg.Intn(40))
+					lg.Fill(pt)
+					copy(pt, fmt.Sprintf("C%d.%d.%d:", side, s, i))
+					sentMu.Lock()
+					sent[side][string(pt)] = true
+					sentMu.Unlock()
+					emu.Lock()
+					recent = append(recent, pt)
+					if len(recent) > 64 {
+						recent = recent[1:]
+					}
+					emu.Unlock()
+					sctx, cf := context.WithTimeout(ctx, 3*time.Second)
+					err := nw.end(side).ch.Send(sctx, [][]byte{pt})
+					cf()
+					if err == nil {
+						nSent.Add(1)
+					}
+					time.Sleep(time.Duration(lg.Intn(3000)) * time.Microsecond)
+				}
+			}()
+		}
+	}
+	// the adversary
+	var advActs atomic.Int64
+	wg.Add(1)
+	ag := g.Fork()
+	go func() {
+		defer wg.Done()
+		for time.Since(start) < dur {
+			time.Sleep(time.Duration(200+ag.Intn(1500)) * time.Microsecond)
+			nw.mu.Lock()
+			if len(nw.log) == 0 {
+				nw.mu.Unlock()
+				continue
+			}
+			var m *cmsg
+			switch ag.Intn(3) {
+			case 0: // an old message (possibly from several sessions ago)
+				m = nw.log[ag.Intn(len(nw.log)/2+1)]
+			case 1: // a recent one
+				m = nw.log[len(nw.log)-1-ag.Intn(min(len(nw.log), 16))]
+			default:
+				m = nw.log[ag.Intn(len(nw.log))]
+			}
+			bts := append([]byte{}, m.Bytes...)
+			from := m.From
+			nw.mu.Unlock()
+			to := 1 - from
+			switch ag.Intn(8) {
+			case 0, 1, 2: // replay to the intended receiver
+			case 3: // reflect
+				to = from
+			case 4: // bit flip
+				bts[ag.Intn(len(bts))] ^= 1 << uint(ag.Intn(8))
+			case 5: // truncate / extend
+				if ag.Bool() {
+					bts = bts[:ag.Intn(len(bts)+1)]
+				} else {
+					bts = append(bts, ag.Bytes(1+ag.Intn(8))...)
+				}
+			case 6: // rewrite the counter
+				if len(bts) >= 4 {
+					binary.BigEndian.PutUint32(bts, rng.Pick(ag, []uint32{0, 1, 2, 3, 15, 16, 17, uint32(ag.Intn(200)), 1<<32 - 2, 1<<32 - 1}))
+				}
+			default: // cross-feed to the other side
+				to = ag.Intn(2)
+			}
+			nw.push(to, bts)
+			advActs.Add(1)
+		}
+	}()
+	wg.Wait()
+	time.Sleep(20 * b)
+	cancel()
+	nw.close()
+	r.Eval(1)
+	// (b) counter uniqueness per session, from the encryption-site hook
+	for _, e := range verifhook.Drain() {
+		if e.Kind != verifhook.KindCiphertext {
+			continue
+		}
+		m := emitted[e.A]
+		if m == nil {
+			m = map[uint64]int{}
+			emitted[e.A] = m
+		}
+		m[e.C]++
+	}
+	det := map[string]any{"sent": nSent.Load(), "adversary_actions": advActs.Load(), "sessions_seen": len(emitted), "backoff_ms": b.Milliseconds(), "rekey_ms": tm.RekeyAfterTime.Milliseconds()}
+	for sid, m := range emitted {
+		for c, k := range m {
+			if k > 1 {
+				det["session"], det["counter"] = sid, c
+				r.Violate("C02/counter-reuse/channel", caseID, fmt.Sprintf("a session of a channel produced %d ciphertexts under counter %d", k, c), det)
+				return
+			}
+		}
+	}
+	if w := onWire.Load(); w != nil {
+		r.Violate("C02/plaintext-on-wire/channel", caseID, w.(string), det)
+		return
+	}
+	// (a) authenticity and at-most-once across rotation
+	nw.mu.Lock()
+	defer nw.mu.Unlock()
+	delivered := 0
+	for side := 0; side < 2; side++ {
+		for pt, k := range nw.appGot[side] {
+			delivered++
+			if !sent[1-side][pt] {
+				owner := "nobody"
+				if sent[side][pt] {
+					owner = "the receiving side itself (reflection)"
+				}
+				det["plaintext"] = fmt.Sprintf("%q", pt)
+				r.Violate("C02/foreign-plaintext/channel", caseID, "a channel delivered a plaintext its peer never sent (sent by: "+owner+")", det)
+				return
+			}
+			if k > 1 {
+				det["plaintext"] = fmt.Sprintf("%q", pt)
+				r.Violate("C02/delivered-twice/channel", caseID, fmt.Sprintf("a plaintext was delivered %d times across session rotation", k), det)
+				return
+			}
+		}
+	}
+	det["delivered"] = delivered
+	if delivered > 0 && len(emitted) >= 4 && advActs.Load() > 0 {
+		r.NonTrivial(fmt.Sprintf("channel/sessions=%d/ka=%dms", min(len(emitted), 12), tm.KeepAliveTimeout.Milliseconds()))
+	}
+	r.Count("channel_app_deliveries", int64(delivered))
+	r.Count("channel_sessions", int64(len(emitted)))
+	if caseID[len(caseID)-1] == '0' {
+		r.Sample(det)
+	}
+}
+
+func containsSub(hay, needle []byte) bool {
+	if len(needle) == 0 || len(hay) < len(needle) {
+		return false
+	}
+	for i := 0; i+len(needle) <= len(hay); i++ {
+		if hay[i] == needle[0] && string(hay[i:i+len(needle)]) == string(needle) {
+			return true
+		}
+	}
+	return false
+}
